@@ -170,6 +170,23 @@ theorem deposit_values_glv_maximized : depositGlvMaximized = true ∧ depositRec
 open Gmx.Gen.C45 in
 theorem withdrawal_values_glv_minimized : withdrawalGlvMaximized = false ∧ withdrawalPaysAtMaximizedPool = true := by decide
 
+open Gmx.Gen.C45 in
+/-- the pnl-factor kinds behind the two pool values of `glv_roundtrip_no_gain` are the ones the source uses:
+received market tokens are valued with `MaxAfterDeposit` (`pvIn`), redeemed value is converted at
+`MaxAfterWithdrawal` (`pvOut`). Regenerated from crates/model/src/glv.rs on every run. -/
+theorem glv_pricing_kinds : glvValueUsesDepositKind = true ∧ glvAmountUsesWithdrawalKind = true := by decide
+
+/-- **Finding F-C45-caps (witness)**: `glv_roundtrip_no_gain` needs `pvIn ≤ pvOut`. When the pay-out pool value is
+BELOW the valuation pool value — which happens exactly when the market's withdrawal pnl cap is configured above its
+deposit pnl cap and pending trader profit exceeds the deposit cap — the literal clause "a GLV deposit immediately
+followed by a withdrawal never returns more market tokens" is false: 100 market tokens in (market supply 1000, valuation pool value 2000, GLV value and supply 1000), 200 out at
+pay-out pool value 1000. -/
+theorem glv_roundtrip_gain_witness :
+    glvMint (100 * 2000 / 1000) 1000 1000 1 = some 200 ∧
+    glvRedeem 200 (1000 + 100 * 2000 / 1000) (1000 + 200) (1000 : Int) 1000 1 = some 200 ∧
+    (100 : Nat) < 200 ∧ (1000 : Nat) < 2000 := by
+  decide
+
 /-! ### Non-vacuity -/
 example : glvInsert ⟨1, 2, [{ token := 10 }]⟩ ⟨11, 1, 2⟩ = some ⟨1, 2, [{ token := 10 }, { token := 11 }]⟩ := by decide
 example : glvInsert ⟨1, 2, [{ token := 10 }]⟩ ⟨11, 1, 3⟩ = none := by decide
